@@ -35,7 +35,8 @@ def _run(w):
         beta = list(b)
     kw = dict(window_size=1, num_clusters=K, iteration_limit=lim, min_cluster_size=1, sparsity_weight=0.1,
               label_switching_cost=b)
-    sc = Scripted(inp, K, n, mean_pattern=_mean_pattern)
+    sc = Scripted(inp, K, n, mean_pattern=_mean_pattern,
+                  scripted=('statistics', 'optimise', 'bic', 'ch', 'initial'))     # repopulation is real
     with sc:
         if nt.get('joint'):
             series = [np.array([[_data_pattern(i, j, s) for j in range(n)] for i in range(L)])
